@@ -10,7 +10,7 @@
  "instrument_flags": ["--nondet-static-exclude", "insecure_memzero_ptr"],
  "defines": ["VERIF_HALLOC", "RP_BUFLEN=48", "VERIF_STRMAX=56"],
  "models": ["models/libc_string.c", "models/io_stdio.c", "models/io_warnp.c"],
- "cbmc": ["--malloc-may-fail", "--malloc-fail-null"],
+ "cbmc": ["--malloc-may-fail", "--malloc-fail-null", "--memory-leak-check"],
  "bounded": true, "bound": "line buffer MAXPASSLEN scaled from 2048 to 48 bytes (code parametric in it); files of any length",
  "timeout": 300,
  "assumptions": ["insecure_memzero_func is the real one (loop contract from contracts/util__insecure_memzero.c.drbg.spec); the volatile pointer insecure_memzero_ptr keeps its initialiser",
@@ -59,4 +59,8 @@ h_readpass_file(void)
 	VCOVER(rc == -1 && filesize > 3 * MAXPASSLEN);
 	VCOVER(rc == -1 && pw == NULL);
 	VCOVER(rc == -1 && filesize == 0);
+	/* C14: release what the caller owns; cbmc's leak check then shows that neither the stream nor a copy stayed allocated */
+	if (rc == 0)
+		free(pw);
+	free(fn);
 }
